@@ -1,5 +1,6 @@
 import ElfiVerif.Proofs.Npy
 import ElfiVerif.Proofs.BufIO
+import ElfiVerif.Proofs.NpyRebatch
 
 /-!
 # C06 — on-disk array stores keep exactly what was written, across reopen and crash
@@ -132,3 +133,51 @@ theorem bypass_counterexample :
   bypass_counterexample'
 
 end ElfiVerif.Npy.BufIO
+
+namespace ElfiVerif.Npy
+
+/-! ### Re-batching: a file reopened with another batch size (`Model/NpyRebatch.lean`)
+
+`d` is any file as a flush or close leaves it: a header claiming `rows.length` rows and exactly those rows
+present.  `b` is ANY positive batch size - it need not divide the row count. -/
+
+/-- **What a re-batched store exposes**: the complete batches of `b` consecutive rows, in file order, and nothing
+else; together with the trailing rows they are exactly the file. -/
+theorem rebatch_view (rows : List Row) (b : Nat) (hb : 0 < b) :
+    ∃ s, Store.openB ⟨some rows.length, rows⟩ b = .ok s ∧ s.nBatches = rows.length / b ∧
+      s.content ⟨some rows.length, rows⟩ = chunks b rows ∧
+      (∀ x ∈ chunks b rows, x.length = b) ∧
+      (chunks b rows).flatten ++ tailRows b rows = rows ∧ (tailRows b rows).length = rows.length % b :=
+  rebatch_view' rows b hb
+
+/-- **A batch size that divides the row count gives an ordinary store**: every further history (any operations
+of `Model/Npy.lean`, reopen / pickle / crash points included) has the list semantics started from those batches -
+the refinement, standard-file and crash theorems above apply from this state (`Inv` is their invariant). -/
+theorem rebatch_aligned (rows : List Row) (b : Nat) (hb : 0 < b) (hdiv : b ∣ rows.length) (s : Store)
+    (hs : Store.openB ⟨some rows.length, rows⟩ b = .ok s) :
+    Inv b s ⟨some rows.length, rows⟩ { avail := chunks b rows } :=
+  rebatch_aligned' rows b hb hdiv s hs
+
+/-- **With trailing rows**: along any history of whole-batch set / del / clear / flush operations the store
+rejects exactly the operations the reference semantics `specRunT` rejects (in particular every append while the
+trailing rows are there) and exposes exactly its batches after every operation. -/
+theorem rebatch_refines (rows : List Row) (b : Nat) (hb : 0 < b) (s : Store)
+    (hs : Store.openB ⟨some rows.length, rows⟩ b = .ok s) (ops : List Op) (hops : ∀ op ∈ ops, opT b op = true) :
+    reportRunB s ⟨some rows.length, rows⟩ ops = specRunT (chunks b rows) (decide (rows.length % b ≠ 0)) ops :=
+  rebatch_refines' rows b hb s hs ops hops
+
+/-- **The trailing rows are never altered by an overwrite**, and an append over them is refused without a single
+file step. -/
+theorem rebatch_tail_untouched (rows : List Row) (b : Nat) (hb : 0 < b) (htail : rows.length % b ≠ 0) (s : Store)
+    (hs : Store.openB ⟨some rows.length, rows⟩ b = .ok s) (i : Nat) (batch : List Row) (hlen : batch.length = b) :
+    let d : Disk := ⟨some rows.length, rows⟩
+    let r := s.step false d (.set i batch)
+    (rows.length / b ≤ i → r = (some .indexError, [], s)) ∧
+    (i < rows.length / b → r.1 = none ∧
+      npLoad (d.applyAll r.2.1) = some (((chunks b rows).set i batch).flatten ++ tailRows b rows)) :=
+  rebatch_tail_untouched' rows b hb htail s hs i batch hlen
+
+/-- non-vacuity / the C06g shape: 7 rows read with batch size 3 -/
+example : chunks 3 [1, 2, 3, 4, 5, 6, 7] = [[1, 2, 3], [4, 5, 6]] ∧ tailRows 3 [1, 2, 3, 4, 5, 6, 7] = [7] := by decide
+
+end ElfiVerif.Npy
